@@ -233,7 +233,6 @@ WAKE07 = [  # two threads contend on ONE identifier while a third takes and rele
     ("so - p 7 1 n n", "tag 1 7 || tag 2 7 || tag 3 7"),
     # three contenders for ONE identifier (two of them wait at the same time; who is told when the second holder leaves?)
     ("so 1 p 7 1 n n", "del 1 || del 1 || del 1"),                                  # object-locked pid
-    ("", "so 1 p 7 1 n n || del 1 || del 1"),
     ("so - p 7 1 n n ; so - p 8 1 n n", "tag 1 7 || tag 1 8 || tag 1 7"),          # reference-locked pid
 ]
 WAKE12 = [
@@ -333,7 +332,8 @@ def c08(run):
     # (b') pools in which two calls take the same identifiers of DIFFERENT lock classes (lock-order sensitive), chunky random schedules
     LOCKORDER = [("so 1 p 7 1 n n", "tag 1 7 || del 1"), ("so 1 p 7 1 n n", "so 1 p 7 1 n n || del 1"), ("so - p 7 1 n n", "tag 1 7 || del 1"),
                  ("so 1 p 7 1 n n ; so 2 p 7 1 n n", "del 1 || del 2 || tag 3 7"), ("so 1 p 7 1 n n ; sm 1 1 p 1 1", "del 1 || sm 1 1 p 2 1 || dm 1 -"),
-                 ("so 1 p 7 1 n n", "tag 1 7 || del 1 || so 1 p 7 1 n n")]
+                 ("so 1 p 7 1 n n", "tag 1 7 || del 1 || so 1 p 7 1 n n"),
+                 ("", "so 1 p 7 1 n n || del 1 || del 1")]        # a store and two deleters of one pid (here only the locks are judged: the store may be refused, K07-D9)
     wake_families(run, LOCKORDER, 20 if quick else 200, oracle="locks", proj="search-lockorder")
     wake_families(run, WAKE07 + WAKE12, 8 if quick else 80, oracle="locks", proj="search-wakeups")
     # (c) 3 and 4 threads drawn from a mixed menu (object and metadata calls together), random schedules, then a
